@@ -44,6 +44,7 @@ pub fn hash_of<T: Hash>(t: &T) -> u64 {
 
 thread_local! {
     static LAST_PANIC: RefCell<Option<String>> = const { RefCell::new(None) };
+    static CATCH_DEPTH: std::cell::Cell<u32> = const { std::cell::Cell::new(0) };
 }
 
 static HOOK: Once = Once::new();
@@ -65,7 +66,9 @@ pub fn install_quiet_panic_hook() {
                 .map(|l| format!("{}:{}", l.file(), l.line()))
                 .unwrap_or_else(|| "<unknown>".into());
             let text = format!("{msg} @ {loc}");
-            if std::env::var_os("VP_PANIC_TRACE").is_some() {
+            let tokio_worker = std::thread::current().name().is_none_or(|n| n != "main");
+            let _ = tokio_worker;
+            if std::env::var_os("VP_PANIC_TRACE").is_some() || CATCH_DEPTH.with(|d| d.get()) == 0 {
                 eprintln!("[panic] {text}");
             }
             LAST_PANIC.with(|p| *p.borrow_mut() = Some(text));
@@ -81,7 +84,10 @@ pub fn take_last_panic() -> Option<String> {
 pub fn catch<T>(f: impl FnOnce() -> T) -> Result<T, String> {
     install_quiet_panic_hook();
     let _ = take_last_panic();
-    match panic::catch_unwind(panic::AssertUnwindSafe(f)) {
+    CATCH_DEPTH.with(|d| d.set(d.get() + 1));
+    let r = panic::catch_unwind(panic::AssertUnwindSafe(f));
+    CATCH_DEPTH.with(|d| d.set(d.get() - 1));
+    match r {
         Ok(v) => Ok(v),
         Err(_) => Err(format!(
             "panic: {}",
